@@ -14,6 +14,8 @@ V4 = [0, 1, 2, 99]
 
 def prop_of(cfg, cut, clause="out"):
     """which property does a scenario speak about?"""
+    if cfg.get("failagg"):
+        return "C16"        # a user-defined aggregation that raises: the accumulator keeps the state it had
     if cut and clause == "outB":
         return "C12"
     fam = cfg["family"]
